@@ -112,9 +112,29 @@ type builder struct {
 	mu    sync.Mutex
 	built map[string]*buildEntry // variant|pkg -> binary
 	ovmu  sync.Mutex
+	ovs   map[string]*ovEntry // variant -> overlay file, written once per process
 }
 
-var bld = &builder{built: map[string]*buildEntry{}}
+type ovEntry struct {
+	path string
+	err  error
+}
+
+var bld = &builder{built: map[string]*buildEntry{}, ovs: map[string]*ovEntry{}}
+
+// overlay returns the overlay file of a variant. It is generated once per process: the files it names (the overlay JSON,
+// the scaled stream.go, the instrumented sources) are read by `go build` processes that run in parallel, so they must
+// not be rewritten while a build of another package of the same variant is in flight.
+func (b *builder) overlay(variant string) (string, error) {
+	b.ovmu.Lock()
+	defer b.ovmu.Unlock()
+	if e := b.ovs[variant]; e != nil {
+		return e.path, e.err
+	}
+	p, err := overlayFor(variant)
+	b.ovs[variant] = &ovEntry{p, err}
+	return p, err
+}
 
 // harnessOverlay maps every file under /verif/harness/<pkg>/ to the virtual directory
 // /repo/internal/zzverif/<pkg>/ of module filippo.io/age.
@@ -170,7 +190,7 @@ func overlayFor(variant string) (string, error) {
 			}
 			nb := strings.Replace(string(b), decl, fmt.Sprintf("const ChunkSize = %d", n), 1)
 			dst := filepath.Join(bdir, "stream.go")
-			if err := os.WriteFile(dst, []byte(nb), 0o644); err != nil {
+			if err := writeAtomic(dst, []byte(nb)); err != nil {
 				return "", err
 			}
 			repl[src] = dst
@@ -198,7 +218,7 @@ func overlayFor(variant string) (string, error) {
 				}
 			}
 			dst := filepath.Join(bdir, "scrypt.go")
-			if err := os.WriteFile(dst, []byte(src+string(tail)), 0o644); err != nil {
+			if err := writeAtomic(dst, []byte(src+string(tail))); err != nil {
 				return "", err
 			}
 			repl[filepath.Join(dir, "scrypt", "scrypt.go")] = dst
@@ -220,10 +240,20 @@ func overlayFor(variant string) (string, error) {
 	}
 	ov := filepath.Join(bdir, "overlay.json")
 	b, _ := json.MarshalIndent(map[string]interface{}{"Replace": repl}, "", " ")
-	if err := os.WriteFile(ov, b, 0o644); err != nil {
+	if err := writeAtomic(ov, b); err != nil {
 		return "", err
 	}
 	return ov, nil
+}
+
+// writeAtomic writes a build input so that a concurrent reader (a `go build` of another package, or another vcheck
+// process) sees either the old or the new complete file.
+func writeAtomic(path string, data []byte) error {
+	tmp := fmt.Sprintf("%s.%d.tmp", path, os.Getpid())
+	if err := os.WriteFile(tmp, data, 0o644); err != nil {
+		return err
+	}
+	return os.Rename(tmp, path)
 }
 
 var errNoScale = fmt.Errorf("ChunkSize declaration not found (scaled tier unavailable)")
@@ -243,9 +273,7 @@ func (b *builder) build(variant, pkg string, race bool) (string, error) {
 }
 
 func (b *builder) build1(variant, pkg string, race bool) (string, error) {
-	b.ovmu.Lock()
-	ov, err := overlayFor(variant)
-	b.ovmu.Unlock()
+	ov, err := b.overlay(variant)
 	if err != nil {
 		return "", err
 	}
